@@ -593,24 +593,45 @@ Definition oracle_all (x : case) : bool := oracle_base x && oracle_C04 x.
 (* full one and avoids the faulty connection.  Faults are read off the ops and the implementation's own *)
 (* snapshots: a Failed report from the connection that is sending, or a request that was not           *)
 (* acknowledged for RECEIVE_REQUEST_TIMEOUT when a poll notices it.                                    *)
-Fixpoint c5_run (prev : csnap) (now : N) (faults : list (peer * conn)) (ops : list cop) (obs : list cobs) : bool :=
+(* A third kind of fault is read off the ops alone, so that it does not depend on how the implementation records it: a
+   wantlist was handed to connection c (`OSendWantlist p c`) and c is closed before ANY report about that transmission came
+   back from c — what the peer received is unknown (nothing, in fact).  `inflight` = transmissions handed over and not yet
+   acknowledged by a report from their connection.  (A report that arrives from c after c was closed is outside the swarm's
+   contract; it withdraws the fault rather than raising an alarm about what the code does with it.) *)
+Definition pc_eqb (a b : peer * conn) : bool := (fst a =? fst b) && (snd a =? snd b).
+Definition pc_remove (x : peer * conn) (l : list (peer * conn)) : list (peer * conn) := filter (fun y => negb (pc_eqb x y)) l.
+
+Fixpoint c5_run (prev : csnap) (now : N) (faults cfaults inflight : list (peer * conn)) (ops : list cop) (obs : list cobs) : bool :=
   match ops, obs with
   | op :: ops', ob :: obs' =>
       let now' := match op with CAdvance ms => now + ms | _ => now end in
-      let new_faults := faults_of prev now' op in
-      let faults1 := new_faults ++ faults in
+      let closed_unacked := match op with
+                            | CConnClosed p c => if existsb (pc_eqb (p, c)) inflight then [(p, c)] else []
+                            | _ => []
+                            end in
+      let cfaults0 := match op with CReport p c _ => pc_remove (p, c) cfaults | _ => cfaults end in
+      let inflight0 := match op with
+                       | CReport p c _ | CConnClosed p c => pc_remove (p, c) inflight
+                       | _ => inflight
+                       end in
+      let faults1 := faults_of prev now' op ++ faults in
+      let cfaults1 := closed_unacked ++ cfaults0 in
       (* every wantlist sent by this op to a peer with a pending fault must be full and avoid that connection *)
       let sends := flat_map (fun o => match o with OSendWantlist p c f _ => [(p, c, f)] | _ => [] end) (fst ob) in
       let ok := forallb (fun s => let '(p, c, f) := s in
-                                  forallb (fun pc => if fst pc =? p then f && negb (snd pc =? c) else true) faults1) sends in
-      let faults2 := filter (fun pc => negb (existsb (fun s => fst (fst s) =? fst pc) sends)) faults1 in
-      (* a peer whose state is gone starts a new session when it comes back *)
-      let faults3 := filter (fun pc => n_mem (fst pc) (snap_peers (snd ob))) faults2 in
-      ok && c5_run (snd ob) now' faults3 ops' obs'
+                                  forallb (fun pc => if fst pc =? p then f && negb (snd pc =? c) else true) (faults1 ++ cfaults1)) sends in
+      let settled := fun (l : list (peer * conn)) =>
+                       filter (fun pc => negb (existsb (fun s => fst (fst s) =? fst pc) sends)
+                                         (* a peer whose state is gone starts a new session when it comes back *)
+                                         && n_mem (fst pc) (snap_peers (snd ob))) l in
+      let inflight1 := filter (fun pc => n_mem (fst pc) (snap_peers (snd ob)))
+                              (map (fun s => (fst (fst s), snd (fst s))) sends
+                               ++ filter (fun pc => negb (existsb (fun s => fst (fst s) =? fst pc) sends)) inflight0) in
+      ok && c5_run (snd ob) now' (settled faults1) (settled cfaults1) inflight1 ops' obs'
   | _, _ => true
   end.
 
-Definition oracle_C05_faults (x : case) : bool := c5_run csnap0 0 [] (snd (fst x)) (snd x).
+Definition oracle_C05_faults (x : case) : bool := c5_run csnap0 0 [] [] [] (snd (fst x)) (snd x).
 
 (* C05, third clause: "every connected peer is sent a full wantlist at least once per 30 s refresh period".  The refresh
    period is the client's interval timer under the virtual clock: it fires at the first poll at or after its deadline and
@@ -689,4 +710,7 @@ Definition sends_want_block (x : case) : bool :=
   existsb (fun ob => existsb (fun o => match o with OSendWantlist _ _ _ es => existsb (fun e => match fst e with KWantBlock => true | _ => false end) es | _ => false end) (fst ob)) (snd x).
 
 Definition oracle_C05 (x : case) : bool := oracle_C05_first x && oracle_C05_faults x && oracle_C05_refresh x.
+(* C15: closing one of several connections is a transmission fault only for what was in flight on it; the exchange goes on,
+   whole, over a remaining connection: the next wantlist is full and avoids the closed connection *)
+Definition oracle_C15_conns (x : case) : bool := oracle_C15 x && oracle_C05_faults x.
 Definition oracle (x : case) : bool := oracle_all x && oracle_C05 x.
